@@ -384,14 +384,165 @@ fn crashes(opts: &Opts, rep: &mut Report) {
     }
 }
 
+/// "Consumed means in the file" while the device is failing or slow: the
+/// samples a sink has acknowledged (consumed from its input, which upstream
+/// sees as free space) must never be ahead of what the file has accepted, also
+/// in the middle of a work() call and when the write fails.
+fn failing_and_slow_device(rep: &mut Report) {
+    // (a) every write fails (ENOSPC): nothing reaches the file, so nothing may be consumed.
+    for pieces in [1usize, 3] {
+        rep.eval();
+        rep.count("failing_device_cases", 1);
+        let replay = json!({"part": "failing-device", "pieces": pieces});
+        let (w, r) = new_stream::<u8>();
+        let sink = FileSink::new(r, "/dev/full", Mode::Append);
+        let mut sink = match sink {
+            Ok(s) => s,
+            Err(e) => {
+                rep.inconclusive(format!("cannot open /dev/full: {e}"));
+                return;
+            }
+        };
+        rec::install(true);
+        rec::clear();
+        for p in 0..pieces {
+            let mut wb = w.write_buf().unwrap();
+            for (i, b) in wb.slice()[..1000].iter_mut().enumerate() {
+                *b = (i + p) as u8;
+            }
+            wb.produce(1000, &[]);
+        }
+        rec::clear();
+        let res = catch(|| sink.work().map(|_| ()).map_err(|e| format!("{e}")));
+        let consumed: usize = rec::take().iter().map(|r| if let Ev::Consume { n, .. } = r.ev { n } else { 0 }).sum();
+        match res {
+            Err(p) => rep.violation("C17|failing-device|panic", format!("work() panicked on a full device: {p}"), replay),
+            Ok(r) => {
+                if consumed > 0 {
+                    rep.violation(
+                        "C17|failing-device|consumed-samples-that-are-not-in-the-file",
+                        format!("every write to the sink's file fails (ENOSPC) and work() returned {r:?}, yet the call consumed {consumed} samples: they are acknowledged and in no file"),
+                        replay,
+                    );
+                } else if r.is_ok() {
+                    rep.count("failing_device_reported_ok_without_consuming", 1);
+                } else {
+                    rep.count("failing_device_error_reported_nothing_consumed", 1);
+                }
+            }
+        }
+    }
+    // (b) the device accepts 64 KiB and then stalls (a FIFO whose reader does not
+    // read yet): while it stalls, acknowledged <= accepted by the device.
+    rep.eval();
+    let replay = json!({"part": "slow-device"});
+    let dir = tempfile::tempdir().expect("tempdir");
+    let path = dir.path().join("slow.fifo");
+    let cpath = std::ffi::CString::new(path.to_str().unwrap()).unwrap();
+    if unsafe { libc::mkfifo(cpath.as_ptr(), 0o600) } != 0 {
+        rep.inconclusive("mkfifo failed".to_string());
+        return;
+    }
+    let (tx_sz, rx_sz) = std::sync::mpsc::channel::<(i32, usize)>();
+    let (tx_go, rx_go) = std::sync::mpsc::channel::<()>();
+    let rpath = path.clone();
+    let reader = std::thread::spawn(move || -> Vec<u8> {
+        use std::os::fd::AsRawFd;
+        let mut f = std::fs::File::open(&rpath).expect("open fifo for reading");
+        let sz = unsafe { libc::fcntl(f.as_raw_fd(), libc::F_GETPIPE_SZ) };
+        let _ = tx_sz.send((f.as_raw_fd(), if sz > 0 { sz as usize } else { 65536 }));
+        let _ = rx_go.recv();
+        let mut v = Vec::new();
+        let _ = f.read_to_end(&mut v);
+        v
+    });
+    let (w, r) = new_stream::<u8>();
+    let sink = match FileSink::new(r, &path, Mode::Append) {
+        Ok(s) => s,
+        Err(e) => {
+            rep.inconclusive(format!("cannot open the fifo: {e}"));
+            let _ = tx_go.send(());
+            return;
+        }
+    };
+    let (rfd, pipe_sz) = rx_sz.recv_timeout(std::time::Duration::from_secs(10)).unwrap_or((-1, 65536));
+    let capacity = w.free();
+    let total = std::cmp::min(1usize << 20, capacity);
+    let data: Vec<u8> = (0..total).map(|i| (i as u32).wrapping_mul(2654435761).to_le_bytes()[3]).collect();
+    {
+        let mut wb = w.write_buf().unwrap();
+        wb.slice()[..total].copy_from_slice(&data);
+        wb.produce(total, &[]);
+    }
+    let entered = std::sync::Arc::new(std::sync::atomic::AtomicBool::new(false));
+    let e2 = entered.clone();
+    let worker = std::thread::spawn(move || -> Result<(), String> {
+        let mut sink = sink;
+        for _ in 0..64 {
+            e2.store(true, std::sync::atomic::Ordering::SeqCst);
+            sink.work().map(|_| ()).map_err(|e| format!("{e}"))?;
+        }
+        drop(sink);
+        Ok(())
+    });
+    // watch the acknowledgements while the device stalls
+    let t0 = std::time::Instant::now();
+    let mut max_acked = 0usize;
+    let mut samples = 0u64;
+    let mut in_pipe = 0i32;
+    while t0.elapsed() < std::time::Duration::from_millis(400) {
+        std::thread::sleep(std::time::Duration::from_millis(4));
+        if !entered.load(std::sync::atomic::Ordering::SeqCst) {
+            continue;
+        }
+        let acked = total - (capacity - w.free());
+        max_acked = max_acked.max(acked);
+        samples += 1;
+        if rfd >= 0 {
+            unsafe { libc::ioctl(rfd, libc::FIONREAD, &mut in_pipe) };
+        }
+        if in_pipe > 0 && samples > 20 {
+            break;
+        }
+    }
+    let stalled = in_pipe > 0 || samples > 0;
+    let _ = tx_go.send(());
+    let wres = worker.join();
+    drop(w);
+    let got = reader.join().unwrap_or_default();
+    rep.count("slow_device_cases", 1);
+    rep.count("slow_device_ack_samples", samples);
+    if !stalled {
+        rep.abandoned("slow device: the sink never started writing within 400 ms".to_string());
+    } else if max_acked > pipe_sz {
+        rep.violation(
+            "C17|slow-device|acknowledged-ahead-of-the-file",
+            format!("the sink's device accepted at most {pipe_sz} bytes and then stalled, but {max_acked} of {total} input samples were already consumed (acknowledged upstream) inside the blocked work() call: a kill at that moment loses acknowledged samples"),
+            replay.clone(),
+        );
+    }
+    match wres {
+        Ok(Ok(())) => {
+            if got != data {
+                rep.violation("C17|slow-device|content", format!("after the device caught up the file holds {} bytes, expected the {} fed (equal prefix {})", got.len(), data.len(), got.iter().zip(&data).take_while(|(a, b)| a == b).count()), replay);
+            }
+        }
+        Ok(Err(e)) => rep.violation("C17|slow-device|work-error", format!("work() failed on a slow device: {e}"), replay),
+        Err(p) => rep.violation("C17|slow-device|panic", panic_msg(&p), replay),
+    }
+}
+
 pub fn main(opts: &Opts) -> Report {
     let mut rep = Report::new("C17");
-    rep.rule = "modes: {Create, Overwrite, Append} x {absent, empty, non-empty, directory, unwritable} x {FileSink, NoCopyFileSink}, each case in a child process running as uid 65534 (root ignores mode bits), compared with the documented table (exhaustive, 30 cases); crash points: a child streams unique samples/records through a one-page stream into the sink from a feeder thread while the main thread loops work() and reports, after every return, the cumulative count consumed by returned calls with one write(2); the parent SIGKILLs after a seeded number of reports plus a seeded delay; the file must be a prefix of the serialised stream holding at least the last acknowledged count; distinct = (acknowledged, bytes on disk) pairs".into();
+    rep.rule = "modes: {Create, Overwrite, Append} x {absent, empty, non-empty, directory, unwritable} x {FileSink, NoCopyFileSink}, each case in a child process running as uid 65534 (root ignores mode bits), compared with the documented table (exhaustive, 30 cases); crash points: a child streams unique samples/records through a one-page stream into the sink from a feeder thread while the main thread loops work() and reports, after every return, the cumulative count consumed by returned calls with one write(2); the parent SIGKILLs after a seeded number of reports plus a seeded delay; the file must be a prefix of the serialised stream holding at least the last acknowledged count; a sink on /dev/full (every write fails) must consume nothing, and a sink on a FIFO that accepts one pipe buffer and then stalls must not have acknowledged more than the device accepted while its work() call is blocked; distinct = (acknowledged, bytes on disk) pairs".into();
     rep.assume("durability means 'in the file as seen after SIGKILL' (page cache), not power-loss durability");
     rep.exhaustive = Some(false);
     if opts.shard == 0 {
         modes(&mut rep);
         create_race(&mut rep);
+    }
+    if opts.shard % 4 == 1 || opts.nshards == 1 {
+        failing_and_slow_device(&mut rep);
     }
     crashes(opts, &mut rep);
     rep
